@@ -35,12 +35,13 @@ var G = (0, eval)("this");
 G.__log = function (s) { LOG.push(s) };
 G.__out = function (x) { OUT.push(canon(x)) };
 G.__P0 = {}; G.__F_a = undefined; G.__F_b = undefined; G.__F_c = undefined;
-function bits(x) { var d = new DataView(new ArrayBuffer(8)); d.setFloat64(0, x); var h = ""; for (var i = 0; i < 8; i++) h += ("0" + d.getUint8(i).toString(16)).slice(-2); return h }
+var n2s = Function.prototype.call.bind(Number.prototype.toString); // the cases patch Number.prototype
+function bits(x) { var d = new DataView(new ArrayBuffer(8)); d.setFloat64(0, x); var h = ""; for (var i = 0; i < 8; i++) h += ("0" + n2s(d.getUint8(i), 16)).slice(-2); return h }
 function canon(v) {
   if (v === undefined) return "u"; if (v === null) return "n";
   if (typeof v === "boolean") return v ? "b:1" : "b:0";
   if (typeof v === "number") return "d:" + (v !== v ? "NaN" : bits(v));
-  if (typeof v === "string") { var s = "s:"; for (var i = 0; i < v.length; i++) { var c = v.charCodeAt(i); if (c >= 0x20 && c < 0x7f && c !== 92) s += v.charAt(i); else s += "\\u" + ("0000" + c.toString(16).toUpperCase()).slice(-4) } return s }
+  if (typeof v === "string") { var s = "s:"; for (var i = 0; i < v.length; i++) { var c = v.charCodeAt(i); if (c >= 0x20 && c < 0x7f && c !== 92) s += v.charAt(i); else s += "\\u" + ("0000" + n2s(c, 16).toUpperCase()).slice(-4) } return s }
   return "o:" + (typeof v.__id === "string" ? v.__id : "?");
 }
 var F = {}, bad = 0, total = 0;
@@ -88,11 +89,11 @@ var S = {a: [], b: [], c: []};
 	// binary
 	for _, op := range conv.BinaryOps {
 		for i, a := range V {
-			if a.carrier != "" {
+			if a.carrier != "" && a.carrier != "u16" {
 				continue
 			}
 			for j, b := range V {
-				if b.carrier != "" {
+				if b.carrier != "" && b.carrier != "u16" {
 					continue
 				}
 				c := &conv.Ctx{}
@@ -109,7 +110,7 @@ var S = {a: [], b: [], c: []};
 	// unary
 	for _, op := range conv.UnaryOps {
 		for i, a := range V {
-			if a.carrier != "" {
+			if a.carrier != "" && a.carrier != "u16" {
 				continue
 			}
 			c := &conv.Ctx{}
@@ -128,7 +129,7 @@ var S = {a: [], b: [], c: []};
 			continue
 		}
 		for i, a := range V {
-			if a.carrier != "" {
+			if a.carrier != "" && a.carrier != "u16" {
 				continue
 			}
 			c := &conv.Ctx{}
@@ -171,14 +172,21 @@ var S = {a: [], b: [], c: []};
 		}
 	}
 	// toprim, dynamic methods: a fresh object per case
-	dyn := dynSpecs()
+	fmt.Fprint(bw, "(0, eval)("+ox.JSLit(dynPrelude)+"); G.__save = __save; G.__restore = __restore; G.__saved = __saved;\n")
+	dyn := dynSpecs(false)
 	for si := range dyn {
 		spec := &dyn[si]
 		for ci := range primContexts {
 			pc := &primContexts[ci]
 			c := &conv.Ctx{}
 			v, th := pc.f(c, conv.ObjectOf(spec.model("a")), models["b"][plainIdx])
+			if c.Unknown {
+				continue
+			}
 			emit(pc.src, []string{"(0, eval)(" + ox.JSLit(spec.js("a")) + ")", ref("b", plainIdx)}, expected(v, th, c), "toprim "+spec.name+"|"+pc.name)
+			if spec.restores() {
+				fmt.Fprint(bw, "__restore();\n")
+			}
 		}
 	}
 	// order
